@@ -881,7 +881,29 @@ pub struct ConvResult {
 
 /// Run a fault-free ring until it has converged and stayed converged for `want_rot` rotations, or
 /// until the bound is exceeded.  Applies the C02 rules; returns the convergence data.
-pub fn run_to_convergence(rep: &mut Report, run: &mut RingRun, prop: &str, want_rot: u64) -> Option<ConvResult> {
+/// `strict`: report convergence / stability problems as violations of `prop` (C02, C06); otherwise
+/// they are only counted (C01 and C13 judge other rules on the same runs and must not raise C02 alarms).
+pub fn run_to_convergence(rep: &mut Report, run: &mut RingRun, prop: &str, want_rot: u64, strict: bool) -> Option<ConvResult> {
+    let mut tmp = Report::default();
+    tmp.cur_case = rep.cur_case.clone();
+    tmp.verbose = rep.verbose;
+    let r = run_to_convergence_inner(&mut tmp, run, prop, want_rot);
+    if strict {
+        for v in tmp.violations {
+            rep.violation(v.sig, v.what);
+        }
+    } else {
+        for v in &tmp.violations {
+            let kind = v.sig.split('/').nth(1).unwrap_or("other").to_string();
+            rep.count(&format!("{}_runs_with_ring_problem_{}_not_judged_here", prop, kind));
+        }
+    }
+    rep.inconclusive += tmp.inconclusive;
+    rep.inconclusive_notes.extend(tmp.inconclusive_notes);
+    r
+}
+
+fn run_to_convergence_inner(rep: &mut Report, run: &mut RingRun, prop: &str, want_rot: u64) -> Option<ConvResult> {
     let cfg = run.cfg.clone();
     let t_all_online = cfg.stations.iter().map(|s| s.online_at).max().unwrap();
     let bound = cfg.b_conv();
@@ -994,15 +1016,15 @@ pub fn ring_case(rep: &mut Report, seed: u64, idx: u64, prop: &str, verbose: boo
     }
     let mut run = build_ring(&cfg, rng.next_u64());
     let want = if prop == "C02" { 30 } else { 20 };
-    let res = run_to_convergence(rep, &mut run, prop, want);
+    let res = run_to_convergence(rep, &mut run, prop, want, prop == "C02");
     if verbose {
         dump_trace(&run, 400);
     }
-    let Some(res) = res else { return };
-    // C01 monitors over the whole trace
+    // C01 monitors over the whole trace (also of runs that did not converge)
     if prop == "C01" {
         mon_access(rep, &run, prop);
     }
+    let Some(res) = res else { return };
     if let Some(c) = res.converged_at {
         let ratio = (c - res.t0).max(0) as f64 / res.bound as f64;
         rep.max(&format!("{}_max_time_to_converge_over_bound", prop), ratio);
@@ -1041,7 +1063,12 @@ pub fn ring_case(rep: &mut Report, seed: u64, idx: u64, prop: &str, verbose: boo
 pub fn dump_trace(run: &RingRun, last: usize) {
     let bus = run.world.bus.borrow();
     let n = bus.trace.len();
-    for f in bus.trace.iter().skip(n.saturating_sub(last)) {
+    let from: Option<i64> = std::env::var("PBMON_DUMP_FROM").ok().and_then(|s| s.parse().ok());
+    let skip = match from {
+        Some(t) => bus.trace.iter().position(|f| f.start >= t).unwrap_or(0),
+        None => n.saturating_sub(last),
+    };
+    for f in bus.trace.iter().skip(skip).take(last) {
         eprintln!(
             "  {:>10}..{:>10} {:>8} {}{}",
             f.start,
